@@ -13,7 +13,8 @@
   `needs l` = "the connection has work that can proceed without new network input
   or an explicit resume".
 -/
-import Mhd.Proofs.LoopHist
+import Mhd.Proofs.LoopProgress
+import Mhd.Proofs.LoopEpoll
 
 namespace Mhd.C06
 open Mhd.Loop Mhd.Gen.Loop
@@ -35,6 +36,10 @@ theorem runFromSelect_is_saved (ops : Ops W) (d : Daemon W) (rdy : Ready) :
 theorem pollAll_is_saved (ops : Ops W) (d : Daemon W) (rdy : Ready) :
     pollAll ops d rdy = pollAllWith ops true d rdy := by
   unfold pollAll; rw [code_poll_saves_prev]
+
+theorem epollRound_is_saved (ops : Ops W) (d : Daemon W) (evs : List EpEv) :
+    epollRound ops d evs = epollRoundWith ops true d evs := by
+  unfold epollRound; rw [code_epoll_saves_prev]
 
 /-- the bit tests of the loops on `event_loop_info` (values regenerated from internal.h) -/
 theorem eli_bits : ∀ e : Eli,
@@ -86,6 +91,23 @@ theorem pending_flag {needs : Local W → Bool} {d : Daemon W} (h : InvSP needs 
     (∃ c ∈ d.conns, c.loc.eli.hasProcess = true) → d.dap = true :=
   fun ⟨c, hc, hp⟩ => h.flag c hc hp
 
+/-- **No closed connection is left waiting.**  If handle_idle never leaves a connection in the active list
+    in the CLOSED state (`LawOpen`: true of the code with the F22 fix, false without it — there a connection
+    closed while its wait state is computed stays active, unwatched, with "no timeout"), then after every
+    round of either loop no active connection is closed-but-not-cleaned-up. -/
+theorem round_leaves_no_closed {ops : Ops W} {needs : Local W → Bool} (LO : LawOpen ops) {d : Daemon W}
+    (h : InvSP needs d) (rdy : Ready) (poll : Bool) (hnew : ∀ c ∈ d.newc, c.loc.st ≠ stClosed) :
+    ∀ c ∈ (roundOf ops poll d rdy).conns, c.loc.st ≠ stClosed :=
+  round_no_closed LO h rdy poll hnew
+
+/-- non-vacuity: the witness instance satisfies `LawOpen` -/
+example : LawOpen Witness.ops := ⟨by
+  intro id k wh l hw
+  simp only [Witness.ops] at hw ⊢
+  split at hw
+  · cases hw
+  · rename_i h; simp only [h, if_false]; exact h⟩
+
 /-! ## every history -/
 
 /-- The invariant holds in every state reachable from an empty daemon by any sequence of
@@ -106,6 +128,107 @@ theorem no_lost_wakeup {ops : Ops W} {needs : Local W → Bool} (L : Laws ops ne
     ∀ c ∈ d.conns, needs c.loc = false ∧ ¬ (c.loc.eli.hasRead = true ∧ rdyR rdy c.id = true) ∧
       ¬ (c.loc.eli.isWrite = true ∧ rdyW rdy c.id = true) :=
   no_lost_wakeup_sp (reach_inv L h) rdy q
+
+/-! ## epoll -/
+
+/-- **epoll, round post-condition.**  MHD_epoll does not pass every connection through handle_idle.
+    What every round keeps (`InvEP`), for every state satisfying it, every list of delivered epoll
+    events and every `ops` satisfying `LawsEp`: every active connection is in sync; every active
+    connection that is in a PROCESS state, or waits for an event that is cached as ready, is in the
+    eready list; the IN_EREADY bits agree with the list; no fault. -/
+theorem epoll_round_post {ops : Ops W} {needs : Local W → Bool} (L : LawsEp ops needs) {d : Daemon W}
+    (h : InvEP needs d) (evs : List EpEv) : InvEP needs (epollRound ops d evs) := by
+  rw [epollRound_is_saved]; exact epoll_round L h evs
+
+/-- … in every state reachable by MHD_add_connection / MHD_resume_connection / rounds with arbitrary events. -/
+theorem invariant_reachable_epoll {ops : Ops W} {needs : Local W → Bool} (L : LawsEp ops needs) {d : Daemon W}
+    (h : ReachEp ops needs d) : InvEP needs d :=
+  reachEp_inv L h
+
+/-- **No lost wake-up, epoll.**  In every reachable state in which MHD_get_timeout64 answers "no timeout"
+    (so the eready list is empty): no active connection needs processing, none waits for readability
+    while the daemon already knows the descriptor is readable, none waits for writability while the
+    daemon already knows it is writable.  (New kernel events are outside the model: they make the epoll
+    descriptor the application watches readable.) -/
+theorem no_lost_wakeup_epoll {ops : Ops W} {needs : Local W → Bool} (L : LawsEp ops needs) {d : Daemon W}
+    (h : ReachEp ops needs d) (q : getTimeout d = .none) :
+    ∀ c ∈ d.conns, needs c.loc = false ∧ ¬ (c.loc.eli.hasRead = true ∧ c.loc.rdReady = true) ∧
+      ¬ (c.loc.eli.isWrite = true ∧ c.loc.wrReady = true) :=
+  no_lost_wakeup_ep (reachEp_inv L h) q
+
+/-- the pending-work memory of the epoll loop, spelled out -/
+theorem pending_flag_epoll {needs : Local W → Bool} {d : Daemon W} (h : InvEP needs d) :
+    (∃ c ∈ d.conns, c.loc.eli.hasProcess = true) → d.eready ≠ [] := by
+  rintro ⟨c, hc, hp⟩ he
+  have hb : c.inEready = false := by
+    cases hh : c.inEready with
+    | false => rfl
+    | true => have := (h.ei.bitA c hc).mp hh; rw [he] at this; simp at this
+  have := (h.ei.quiet c hc hb).2.1
+  rw [hp] at this; cases this
+
+/-- Non-vacuity for epoll: `Witness.ops` satisfies `LawsEp`; an epoll daemon after one
+    MHD_add_connection, a round, an EPOLLIN event and another round is reachable, and the
+    connection (closed by the read in this instance) is gone. -/
+theorem witness_lawsEp : LawsEp Witness.ops Witness.needs where
+  toLaws := Witness.laws
+  needs_ready := by intro l r w; rfl
+  idle_quiet := by
+    intro id k l _ hb hw _
+    simp only [Witness.ops] at hw ⊢
+    split at hw
+    · cases hw
+    · rename_i h; simp only [h, if_false]; exact hb
+  idle_cleanup := by
+    intro id k l
+    simp only [Witness.ops]
+    split <;> rfl
+
+example : ∃ d, ReachEp Witness.ops Witness.needs d ∧ d.conns.length = 0 ∧ d.log = [.idle 7, .read 7, .idle 7, .idle 7] := by
+  refine ⟨_, ReachEp.round [⟨7, true, false, false⟩] (ReachEp.round [] (ReachEp.add { id := 7, loc := Witness.mkLoc stInit .read }
+    (ReachEp.init true) ⟨by simp, by simp, by simp, by simp, rfl, rfl, rfl, rfl, rfl⟩)), ?_, ?_⟩ <;> decide
+
+/-! ## progress -/
+
+/-- **One fair round.**  A connection that awaits its reply and is in a PROCESS or WRITE state, in a round
+    in which it is reported writable if it waits for writability and no socket error is reported
+    for it: after the round it is no longer active (closed, or suspended by its own handler), or its
+    reply is complete, or its measure `rank` is strictly smaller — for every state satisfying the
+    invariant, every readiness of the other connections, every lawful `ops`, both loops. -/
+theorem progress_one_round {ops : Ops W} {needs awaiting : Local W → Bool} {replies rank : Local W → Nat}
+    (L : Laws ops needs) (PL : ProgLaws ops awaiting replies rank) {d : Daemon W} (h : InvSP needs d)
+    (rdy : Ready) (poll : Bool) {c : Conn W} (hc : c ∈ d.conns) (ha : awaiting c.loc = true)
+    (hs : c.loc.eli = .process ∨ c.loc.eli = .write) (hfair : c.loc.eli = .write → rdyW rdy c.id = true)
+    (hne : rdyE rdy c.id = false) :
+    ∀ c' ∈ (roundOf ops poll d rdy).conns, c'.id = c.id → replies c'.loc ≤ replies c.loc →
+      awaiting c'.loc = true ∧ replies c'.loc = replies c.loc ∧ rank c'.loc < rank c.loc ∧
+        (c'.loc.eli = .process ∨ c'.loc.eli = .write) :=
+  progress_round L PL h rdy poll hc ha hs hfair hne
+
+/-- **Progress.**  For every history `H` of MHD_add_connection / MHD_resume_connection / event-loop
+    rounds that is fair for connection `p` (see `FairFor`: nothing is assumed about the other
+    connections) and contains more than `rank` rounds: at some point of `H` connection `p` has its
+    reply completely sent (`replies` grew) or is no longer in the active list (closed, or
+    suspended by its own handler). -/
+theorem progress {ops : Ops W} {needs awaiting : Local W → Bool} {replies rank : Local W → Nat}
+    (L : Laws ops needs) (PL : ProgLaws ops awaiting replies rank) (poll : Bool) (p : CId)
+    (H : List (Step W)) (d : Daemon W) (c : Conn W) (hinv : InvSP needs d) (hc : c ∈ d.conns) (hid : c.id = p)
+    (ha : awaiting c.loc = true) (hs : c.loc.eli = .process ∨ c.loc.eli = .write)
+    (hfair : FairFor ops needs poll p d H) (hr : rank c.loc < nRounds H) :
+    ∃ H1 H2, H = H1 ++ H2 ∧ ∀ c' ∈ (runSteps ops poll d H1).conns, c'.id = p → replies c.loc < replies c'.loc :=
+  progress_history L PL poll p H d c hinv hc hid ha hs hfair hr
+
+/-- Non-vacuity of the progress theorems: a lawful instance (`Demo`), a state satisfying the
+    invariant in which connection 0 still needs two idle calls, a fair history of three rounds
+    (connection 1 is readable in the second one): after two rounds the reply is complete. -/
+example :
+    Laws Demo.ops Demo.needs ∧ ProgLaws Demo.ops Demo.awaiting Demo.replies Demo.rank ∧ InvSP Demo.needs Demo.d0 ∧
+    FairFor Demo.ops Demo.needs false 0 Demo.d0 [.round {}, .round { r := [1] }, .round {}] ∧
+    (∀ c' ∈ (runSteps Demo.ops false Demo.d0 [.round {}, .round { r := [1] }]).conns, c'.id = 0 → 0 < Demo.replies c'.loc) := by
+  refine ⟨Demo.laws, Demo.progLaws, Demo.d0_inv, ?_, ?_⟩
+  · simp only [FairFor]
+    decide
+  · decide
 
 /-! ## the loop that reads `pos->prev` after the call (F10) violates all of this -/
 
@@ -145,7 +268,8 @@ example :
 /-- Non-vacuity of `no_lost_wakeup`: a reachable state with an active connection (one
     MHD_add_connection, one round) that is quiescent as long as the client sends nothing. -/
 example : ∃ d, Reach Witness.ops Witness.needs false d ∧ d.conns.length = 1 ∧ Quiescent d {} := by
-  refine ⟨_, Reach.round {} (Reach.add { id := 7, loc := Witness.mkLoc stInit .read } (Reach.init true) (by decide)), ?_, ?_⟩
+  refine ⟨_, Reach.round {} (Reach.add { id := 7, loc := Witness.mkLoc stInit .read } (Reach.init true)
+    ⟨by simp, by simp, by simp, by simp, rfl, rfl, rfl⟩), ?_, ?_⟩
   · decide
   · refine ⟨by decide, ?_, ?_⟩ <;> intro id _ <;> rfl
 
